@@ -65,6 +65,21 @@ theorem recover_idempotent (A : UtxoAlg) (cfg cfg' : Cfg) (img : Image A) (hi : 
       rn'.utxo = utxoOf A rn.tip ∧ (∀ x, x ∈ keys img.rows → x ∈ keys rn'.index) :=
   recover_idempotent_aux cfg cfg' hi r j
 
+/-- Crash, reopen, continue with ANY further workload, crash again (to any
+depth, since the conclusion re-establishes the hypothesis `Inv`): every prefix
+of the second life's commit list — the recovery's own commits first — is an image
+that satisfies the invariant and reopens with `utxo = fold (chain tip)` on the
+image's tip or a tip that a commit of the second life made active, the index
+still containing every row persisted before. -/
+theorem relife_recovers (A : UtxoAlg) (hA : A.Lawful) (cfg cfg' : Cfg) (hp : cfg.prune = none) (img : Image A)
+    (hi : Inv img) (rn : Node A) (r : recover cfg img = .ok rn) (ops : List Op) (k : Nat) :
+    Inv (replay img ((runOps cfg rn ops).log.take k)) ∧
+    ∃ rn', recover cfg' (replay img ((runOps cfg rn ops).log.take k)) = .ok rn' ∧
+      rn'.utxo = utxoOf A rn'.tip ∧
+      (rn'.tip = img.best ∨ rn'.tip ∈ ((runOps cfg rn ops).log.take k).filterMap bestOf) ∧
+      (∀ x, x ∈ keys img.rows → x ∈ keys rn'.index) :=
+  relife_recovers_aux hA cfg cfg' hp hi r ops k
+
 /-- Convergence, partial: once a later delivery re-triggers chain selection and
 ends on the main chain and moves the tip (hypothesis = negation of F-C04-a), the node — whatever crash/recovery history it has — is on that block's
 chain with `utxo = fold`, i.e. in the same observable state as any other run
